@@ -285,9 +285,6 @@ def signature(S: L.Schema, F: str, kind: str, phase: str, observed: str, v, shp=
             and "dbase" in L.kinds_deep(shp, S) and phase != "composition":
         sig["kind"] = "format-base-typed-field-subclass-fields-dropped"
         return sig
-    if phase == "encoder-kwargs" and F == "orjson" and kind == "mixin" and dialect_given:
-        sig["kind"] = "orjson-options-ignored-with-call-dialect"
-        return sig
     if phase.startswith("alike-decode"):
         phase_class = "decode-or-roundtrip"
     else:
@@ -889,7 +886,7 @@ def kwargs_correspondence(ctx: vlib.Ctx):
     """(M) the encoder keyword that reaches the format library from the generated to_<format> method - observed with a
     recording encoder on the real classes - against EncKwargs.kw_used over the generator's decisions as read from
     builder.py on this run (K104b) and the mixins' builder params (K104a), evaluated by vm_compute.
-    Also the direct probe of the visible consequence (known finding C04/orjson-options-ignored-with-call-dialect)."""
+    Also the direct probe of the visible consequence of dropping them (fixed finding C04/orjson-options-ignored-with-call-dialect)."""
     name = "encoder-kwargs-model-vs-impl"
     kr = ctx.kernel_report
     if not (kr.get("K104b", {}).get("ok") and kr.get("K104a", {}).get("ok")):
@@ -975,8 +972,7 @@ def kwargs_correspondence(ctx: vlib.Ctx):
             ctx.fail(f"orjson/mixin[XDK]: to_jsonb(dialect=XDK) differs from to_jsonb() under Config.orjson_options: {observed[:120]}",
                      {"entry": "encoder-kwargs", "src": src, "value_src": "KW(1, {3: 2})", "dialect": "XDK",
                       "observed": observed, "expected": repr(want)},
-                     {"format": "orjson", "entry": "mixin", "phase": "encoder-kwargs", "kind": "orjson-options-ignored-with-call-dialect",
-                      "dialect": "XDK"})
+                     {"format": "orjson", "entry": "mixin", "phase": "encoder-kwargs", "kind": "other", "dialect": "XDK"})
     except Exception as e:
         ctx.fail(f"encoder-kwargs probe class cannot be created/used: {_exc(e)}",
                  {"entry": "schema", "src": src, "observed": traceback.format_exc()[-1500:], "expected": "classes are created"},
@@ -1255,8 +1251,8 @@ def run(ctx: vlib.Ctx):
     ctx.theorems("props/C04_entries.vo", ["C04_entry_points_alike", "C04_decoder_object_is_model_decode",
                                           "C04_encoder_object_is_model_encode", "C04_codec_objects_roundtrip"],
                  kernels=["K104a", "K40"])
-    ctx.theorems("props/C04_kwargs.vo", ["C04_encoder_kwargs_reach_encoder", "C04_encoder_kwargs_with_dialect_refuted",
-                                         "C04_encoder_kwargs_with_dialect_partial", "C04_method_document_keyword"],
+    ctx.theorems("props/C04_kwargs.vo", ["C04_encoder_kwargs_reach_encoder", "C04_encoder_kwargs_with_dialect",
+                                         "C04_method_document_keyword"],
                  kernels=["K104a", "K104b"])
     ctx.theorems("props/C04_mixins.vo", ["C04_mixin_from_is_model_decode", "C04_mixin_to_is_model_encode",
                                          "C04_mixin_methods_and_codec_objects_alike"],
